@@ -481,6 +481,8 @@ impl<'a> Fx<'a> {
             }
             Expr::Try(t) => self.monadic(&t.expr),
             _ if self.mode == Mode::Parser => self.monadic(e),
+            // a call of another fallible function as the last expression: its result is the result
+            Expr::Call(_) | Expr::MethodCall(_) if !is_return && !expr_needs_do(e) => self.expr(e),
             _ => Err(format!("the value of a fallible function is neither `Ok(..)` nor `Err(..)`: `{}`", short(e))),
         }
     }
@@ -521,6 +523,9 @@ impl<'a> Fx<'a> {
             }
             Expr::MethodCall(m) => {
                 let name = m.method.to_string();
+                if let Some((t, _)) = self.krate.crate_trait_methods.iter().find(|(_, n)| *n == name) {
+                    return Err(format!("the crate's own trait `{}` declares a method `{}`", t, name));
+                }
                 match (name.as_str(), m.args.len()) {
                     ("parse_next", 1) if is_input(&m.args[0]) => self.pexpr(&m.receiver),
                     ("map", 1) => Ok(format!("(Winnow.map {} {})", self.pexpr_atom(&m.receiver)?, self.expr_atom(&m.args[0])?)),
@@ -1584,6 +1589,9 @@ impl<'a> Fx<'a> {
 
     fn method_call(&mut self, m: &ExprMethodCall) -> R<String> {
         let name = m.method.to_string();
+        if let Some((t, _)) = self.krate.crate_trait_methods.iter().find(|(_, n)| *n == name) {
+            return Err(format!("the crate's own trait `{}` declares a method `{}`: the call `.{}(..)` may resolve to it", t, name, name));
+        }
         let recv = self.expr_atom(&m.receiver)?;
         let args = self.args(&m.args)?;
         let a = args.join(" ");
